@@ -326,9 +326,19 @@ package state
 //@   ensures mark_needs_a_valid_signature_of_the_regulator: result == nil ==> xcc.VerifyAddressUsingPublicKey(t.utxo.ModifyBlockAddr, ecdsaKey) && xcc.VerifyECDSA(ecdsaKey, bytesign, digestHash)
 
 // ---- callers: nothing is applied unverified ----
+// The only transaction tolerated after it failed the ordinary verification is one that
+// carries the regulator's own (valid) mark. A transaction that merely SPENDS FROM a marked
+// transaction is never tolerated - inside the mark's grace window it is simply not blocked.
+//@ func State.checkRelyOnMarkedTxid
+//@   property C07
+//@   ensures an_error_is_a_negative_verdict: result2 != nil ==> !result0
+//@ func State.verifyRelyOnMarkedTxs
+//@   property C07
+//@   ensures a_dependant_of_a_marked_tx_is_never_tolerated: !(result0 && result1)
 //@ func State.verifyMarked
-//@   noverify
+//@   property C07
 //@   pure
+//@   ensures tolerated_only_under_the_regulators_own_mark: result0 && result1 ==> old(tx.ModifyBlock != nil && tx.ModifyBlock.Marked)
 //@ func State.ImmediateVerifyAutoTx
 //@   noverify
 //@   ensures slices_untouched: slicesFrame(ref)
